@@ -4,10 +4,10 @@ properties against a scratch copy of /repo with the change applied; writes seede
 import json, os, subprocess, sys, tempfile, shutil, re
 ROOT = "/verif"
 RELATED = {
-    "C01": ["C01", "C10", "C11", "C13"], "C02": ["C02", "C14", "C11"], "C03": ["C03", "C04", "C09"], "C04": ["C04", "C03", "C10", "C17"],
-    "C05": ["C05", "C11", "C15", "C13"], "C06": ["C06"], "C07": ["C07"], "C08": ["C08", "C09"], "C09": ["C09", "C10", "C04", "C08", "C03"],
-    "C10": ["C10", "C09", "C04", "C01"], "C11": ["C11", "C05", "C02", "C01"], "C12": ["C12"], "C13": ["C13", "C16"], "C14": ["C14", "C02"],
-    "C15": ["C15", "C13", "C05"], "C16": ["C16", "C13"], "C17": ["C17"],
+    "C01": ["C01", "C10", "C11", "C13"], "C02": ["C02", "C14", "C11", "C13"], "C03": ["C03", "C04", "C09", "C05", "C07"], "C04": ["C04", "C03", "C10", "C17", "C05"],
+    "C05": ["C05", "C11", "C15", "C13", "C04"], "C06": ["C06"], "C07": ["C07"], "C08": ["C08", "C09"], "C09": ["C09", "C10", "C04", "C08", "C03"],
+    "C10": ["C10", "C09", "C04", "C01", "C07", "C15"], "C11": ["C11", "C05", "C02", "C01", "C14"], "C12": ["C12"], "C13": ["C13", "C16"], "C14": ["C14", "C02"],
+    "C15": ["C15", "C13", "C05"], "C16": ["C16", "C13", "C08"], "C17": ["C17", "C01"],
 }
 SNAP = None
 def snapshot():
